@@ -184,6 +184,14 @@ pub(super) fn try_parse_hex_integer(source: &str) -> Option<NumericParserResult>
             })
         }
         Err(Overflow(_)) => {
+            // Only the leading HEX digits are the literal. The float parser would
+            // otherwise also consume a following fraction and/or exponent
+            let hex_digits_len = byte_view
+                .iter()
+                .position(|c| !c.is_ascii_hexdigit())
+                .unwrap_or(byte_view.len());
+            let byte_view = byte_view.get(..hex_digits_len).unwrap_or(byte_view);
+
             match parse_partial_with_options::<f64, _, SAS_HEX>(byte_view, &SAS_PARSE_FLOAT_OPTIONS)
             {
                 Ok((value, len)) => {
